@@ -131,7 +131,8 @@ def lmonFor : String → List LMonitor
   | "C14" => [fun st => at2 "follower" (LS.followerRules st 0)]
   | "C13" => [fun st => at2 "lease" (LS.leaseRule st 0 [] 0)]
   | "C08" => [fun st => at2 "client" (LS.ackExact (lp st) 0 (lp st)), fun st => LS.ackOrder (lp st), fun st => LS.fsmInOrder (lp st)]
-  | "C02" => [fun st => LS.fsmInOrder (lp st), fun st => at2 "client" (LS.ackExact (lp st) 0 (lp st))]
+  | "C02" => [fun st => LS.fsmInOrder (lp st), fun st => at2 "client" (LS.ackExact (lp st) 0 (lp st)),
+              fun st => at2 "commit" (LS.commitRule st 0)]
   | "C03" => [fun st => at2 "commit" (LS.commitRule st 0), fun st => at2 "membership" (LS.oneChangeAtATime st false 0),
               fun st => at2 "leader" (LS.requestsSpeakForLedTerm st none 0)]
   | "C09" => [LS.verifyFresh]
